@@ -179,7 +179,7 @@ def main():
             shutil.copytree(a, b)
             seed = rng.getrandbits(31)
             args = [os.path.join(tools, "cxxdiff"), a, b, str(seed), str(rounds)] + (extra if extra else ["1"])
-            rc, out = vlib.sh(args, timeout=600)
+            rc, out = vlib.sh(args, timeout=120)
             lines = out.splitlines()
             done = [l for l in lines if l.startswith("DONE ")]
             if rc != 0 or not done:
@@ -242,8 +242,10 @@ def main():
                     for f in fs:
                         cmd += (["-" + f[0], f[1:]] if f[0] != "f" else [f[1:]])
                     ref = [os.path.join(tools, "utilref"), "ascii", a, str(ff), str(nf), str(skip), prec, zero, delim] + fs
-                    p = vlib.subprocess.run(cmd, stdout=vlib.subprocess.PIPE, stderr=vlib.subprocess.DEVNULL, timeout=60)
+                    p = vlib.subprocess.run(cmd, stdout=vlib.subprocess.PIPE, stderr=vlib.subprocess.PIPE, timeout=60)
                     rc1, o1 = p.returncode, p.stdout.decode("utf-8", "replace")
+                    if rc1 != 0 and b"Interpolation required" in p.stderr:
+                        continue    # documented refusal: one frame of a 1-sample-per-frame field next to a faster field
                     rc2, o2 = vlib.sh(ref, timeout=60)
                     r = o2.split("\n")
                     status = r[0].strip()
